@@ -85,7 +85,7 @@ K('C11.b.mm', property='C11', engine='symex', harness='C11/prod.cpp',
   symex={'assume_no_ub': True},
   what='AMatrixDense::prodMatMatInPlace (Eigen products, all four transposition branches) and the generic AMatrix::prodMatMatInPlace '
        '(qualified call): conformable shapes give R(i,j) = sum_k op(x)(i,k) op(y)(k,j) with the right shape; non-conformable shapes are refused '
-       "and leave 'this' untouched; operands unchanged; no out-of-bounds access",
+       "by the generic version and leave 'this' untouched (the dense override is not called with non-conformable shapes: outside the property); operands unchanged; no out-of-bounds access",
   out="dimensions above 3; 'this' not pre-sized to the result shape; operands aliasing 'this'; symmetric/sparse operands; prodNormMatMatInPlace",
   assumptions=_PRODASSUME, stubs=_PRODSTUBS)
 
